@@ -199,7 +199,8 @@ def run(ctx):
     ctx.cov["evaluations"] = st["programs"] + n_const + n_names + n_strings
     ctx.cov["distinct_nontrivial"] = len(set(r["proj"]["files"]["main.ms"] for r in results if r["status"] == "ran" and r.get("steps", 0) > 30))
     ctx.cov["rule"] = ("programs = all statement skeletons to nesting depth %d (each as a function body called with 3 data variants and at module level) "
-                       "+ random well-typed Core programs (depth <= 3 and <= 5); non-trivial = distinct program whose real run executes > 30 instructions" % depth)
+                       "+ random well-typed Core programs (depth <= 3 and <= 5); non-trivial = distinct program whose real run executes > 30 instructions; "
+                       "plus (Python oracle) identifiers that begin like a keyword / literal in 9 positions and string literals with escaped backslashes / quotes" % depth)
     ctx.cov["exhaustive"] = True
     ctx.cov["skeleton_programs"] = n_skel
     ctx.cov["precedence_programs"] = n_prec
